@@ -160,6 +160,7 @@ func (s *State) extendMacroEnv(macro *object.Macro, args []object.Quote) (*State
 	res.NoLog = s.NoLog
 	res.Extensions = s.Extensions
 	res.MaxDepth = s.MaxDepth
+	res.depth = s.depth // the expansion is part of the evaluation that triggered it (eval() in a macro body).
 	res.Context = s.Context
 	res.NoReg = s.NoReg
 	return res, nil
